@@ -429,3 +429,92 @@ pub fn show_assign(a: &crate::kit::eval::Assign) -> String {
         .collect::<Vec<_>>()
         .join(" ")
 }
+
+// ------------------------------------------------------------------------------------------
+// regular-biased rules (C08, C11): variables inside and outside arithmetic, intervals in heads
+// and in `=` comparisons, symbols next to arithmetic, head variables named like fresh N<i>
+
+fn gen_reg_term(r: &mut Rng, vars: &[&str], depth: u32) -> String {
+    if depth == 0 || r.below(2) == 0 {
+        return match r.below(10) {
+            0..=5 if !vars.is_empty() => vars[r.upto(vars.len())].to_string(),
+            6..=8 | 0..=5 => format!("{}", r.range(-2, 3)),
+            _ => ["a", "#inf", "#sup", "b"][r.upto(4)].to_string(),
+        };
+    }
+    match r.below(7) {
+        0 => format!("-({})", gen_reg_term(r, vars, depth - 1)),
+        k => {
+            let op = ["+", "-", "*"][(k % 3) as usize];
+            format!("({}){}({})", gen_reg_term(r, vars, depth - 1), op, gen_reg_term(r, vars, depth - 1))
+        }
+    }
+}
+
+pub fn gen_regular_rule(r: &mut Rng, preds: &[(String, usize)], safe_bias: u64) -> String {
+    let names = ["X", "Y", "N0", "N1", "I", "N", "N2", "N10"];
+    let nv = r.upto(4);
+    let mut vars: Vec<&str> = Vec::new();
+    while vars.len() < nv {
+        let v = names[r.upto(names.len())];
+        if !vars.contains(&v) {
+            vars.push(v);
+        }
+    }
+    let with_arity: Vec<&(String, usize)> = preds.iter().filter(|(_, n)| *n > 0).collect();
+    let mut body: Vec<String> = Vec::new();
+    for v in &vars {
+        if r.below(safe_bias) != 0 && !with_arity.is_empty() {
+            let (p, n) = with_arity[r.upto(with_arity.len())];
+            let args: Vec<String> = (0..*n).map(|k| if k == 0 { v.to_string() } else { vars[r.upto(vars.len())].to_string() }).collect();
+            body.push(format!("{}({})", p, args.join(",")));
+        }
+    }
+    for _ in 0..r.below(3) {
+        match r.below(4) {
+            0 | 1 => {
+                let sign = ["", "not ", "not not "][r.upto(3)];
+                let (p, k) = &preds[r.upto(preds.len())];
+                if *k == 0 {
+                    body.push(format!("{sign}{p}"));
+                } else {
+                    let args: Vec<String> = (0..*k).map(|_| gen_reg_term(r, &vars, 2)).collect();
+                    body.push(format!("{}{}({})", sign, p, args.join(",")));
+                }
+            }
+            2 => {
+                let rel = ["=", "!=", "<", "<=", ">", ">="][r.upto(6)];
+                body.push(format!("{} {} {}", gen_reg_term(r, &vars, 2), rel, gen_reg_term(r, &vars, 2)));
+            }
+            _ => {
+                let (l, m, h) = (gen_reg_term(r, &vars, 1), gen_reg_term(r, &vars, 1), gen_reg_term(r, &vars, 1));
+                if r.below(4) == 0 {
+                    body.push(format!("({})..({}) = {}", m, h, l));
+                } else {
+                    body.push(format!("{} = ({})..({})", l, m, h));
+                }
+            }
+        }
+    }
+    let (hp, hn) = &preds[r.upto(preds.len())];
+    let hargs: Vec<String> = (0..*hn)
+        .map(|_| {
+            if r.below(3) == 0 {
+                format!("({})..({})", gen_reg_term(r, &vars, 1), gen_reg_term(r, &vars, 1))
+            } else {
+                gen_reg_term(r, &vars, 2)
+            }
+        })
+        .collect();
+    let hatom = if *hn == 0 { hp.clone() } else { format!("{}({})", hp, hargs.join(",")) };
+    let head = match r.below(6) {
+        0 => String::new(),
+        1 | 2 => format!("{{{}}}", hatom),
+        _ => hatom,
+    };
+    if body.is_empty() {
+        if head.is_empty() { ":- 1 = 1.".into() } else { format!("{head}.") }
+    } else {
+        format!("{} :- {}.", head, body.join(", "))
+    }
+}
